@@ -148,3 +148,119 @@ def i_tz64(ex, fr, ins, name, args, st, k):
     for i in range(63, -1, -1):
         res = z3.If(z3.Extract(i, i, x) == 1, z3.BitVecVal(i, 64), res)
     k(st, V('int', res))
+
+
+# ---------------------------------------------------------------------------------------------------------------
+# sync/atomic on words and pointers: sequentially consistent single-word operations.  Every use is recorded in the
+# trace as an ('access', kind, address, line) event for the access discipline (C14).
+# ---------------------------------------------------------------------------------------------------------------
+def _atomic_access(ex, st, kind, p, ins):
+    st.trace.append(('access', kind, p, ex.line(ins), tuple(getattr(st, 'held', ()))))
+    ex.on_access(st, kind, p, ins)
+
+
+def _mk_atomic_load(sortname, tname):
+    def f(ex, fr, ins, name, args, st, k):
+        p = args[0].x
+        ex.check_nonnil(st, p, ins, 'atomic-load')
+        _atomic_access(ex, st, 'atomic-load', p, ins)
+        t = ins['type']
+        k(st, ex.load(st, t, p))
+    return f
+
+
+def _mk_atomic_store(tname):
+    def f(ex, fr, ins, name, args, st, k):
+        p = args[0].x
+        ex.check_nonnil(st, p, ins, 'atomic-store')
+        _atomic_access(ex, st, 'atomic-store', p, ins)
+        ex.on_store(fr, ins, st, args[0], args[1])
+        ex.store(st, p, args[1])
+        k(st, None)
+    return f
+
+
+def _atomic_add(ex, fr, ins, name, args, st, k):
+    p = args[0].x
+    ex.check_nonnil(st, p, ins, 'atomic-add')
+    _atomic_access(ex, st, 'atomic-rmw', p, ins)
+    t = ins['type']
+    old = ex.load(st, t, p)
+    new = V(t, old.x + args[1].x)
+    ex.store(st, p, new)
+    k(st, new)
+
+
+def _atomic_cas(ex, fr, ins, name, args, st, k):
+    p = args[0].x
+    ex.check_nonnil(st, p, ins, 'atomic-cas')
+    _atomic_access(ex, st, 'atomic-rmw', p, ins)
+    et = ex.prog.under(args[0].t)[1]['elem']
+    cur = ex.load(st, et, p)
+    eq = ex.eq_vals(cur, V(et, args[1].x))
+    # success
+    st1 = st.copy()
+    st1.pc.append(eq)
+    st1.pathid.append('casT')
+    ex.store(st1, p, V(et, args[2].x))
+    k(st1, V('bool', z3.BoolVal(True)))
+    # failure: in sequential mode a CAS fails only if the value differs
+    st2 = st.copy()
+    st2.pc.append(z3.Not(eq))
+    st2.pathid.append('casF')
+    k(st2, V('bool', z3.BoolVal(False)))
+
+
+for _n in ('LoadPointer', 'LoadUint64', 'LoadInt64', 'LoadUint32', 'LoadInt32', 'LoadUintptr'):
+    ASSUMED['sync/atomic.' + _n] = 'sequentially consistent atomic load of one word'
+    INTRINSICS['sync/atomic.' + _n] = _mk_atomic_load(None, _n)
+for _n in ('StorePointer', 'StoreUint64', 'StoreInt64', 'StoreUint32', 'StoreInt32'):
+    ASSUMED['sync/atomic.' + _n] = 'sequentially consistent atomic store of one word'
+    INTRINSICS['sync/atomic.' + _n] = _mk_atomic_store(_n)
+for _n in ('AddInt64', 'AddUint64', 'AddInt32'):
+    ASSUMED['sync/atomic.' + _n] = 'atomic add, returns the new value'
+    INTRINSICS['sync/atomic.' + _n] = _atomic_add
+for _n in ('CompareAndSwapInt64', 'CompareAndSwapUint64', 'CompareAndSwapPointer', 'CompareAndSwapInt32'):
+    ASSUMED['sync/atomic.' + _n] = 'atomic compare-and-swap; in sequential mode it fails only if the value differs'
+    INTRINSICS['sync/atomic.' + _n] = _atomic_cas
+
+
+# ---------------------------------------------------------------------------------------------------------------
+# sync.Mutex / sync.Cond: lock-set discipline (C13).  The mutex is identified by its address.
+# ---------------------------------------------------------------------------------------------------------------
+@assumed('(*sync.Mutex).Lock', 'sync.Mutex.Lock blocks until the mutex is free, then holds it (mutual exclusion, happens-before as documented)')
+def i_mutex_lock(ex, fr, ins, name, args, st, k):
+    ex.acquire(st, args[0].x, ins, kind='mutex')
+    k(st, None)
+
+
+@assumed('(*sync.Mutex).Unlock', 'sync.Mutex.Unlock releases the mutex; a run-time error if it is not locked')
+def i_mutex_unlock(ex, fr, ins, name, args, st, k):
+    ex.release(st, args[0].x, ins, kind='mutex')
+    k(st, None)
+
+
+@assumed('(*sync.Cond).Wait', 'Cond.Wait atomically unlocks c.L, suspends until Broadcast/Signal, re-locks c.L; shared state may have changed')
+def i_cond_wait(ex, fr, ins, name, args, st, k):
+    st.trace.append(('condwait', args[0].x, ex.line(ins), tuple(getattr(st, 'held', ()))))
+    ex.on_cond_wait(st, args[0].x, ins)
+    k(st, None)
+
+
+@assumed('(*sync.Cond).Broadcast', 'Cond.Broadcast wakes all goroutines waiting on the condition')
+def i_cond_broadcast(ex, fr, ins, name, args, st, k):
+    st.trace.append(('broadcast', args[0].x, ex.line(ins), tuple(getattr(st, 'held', ()))))
+    k(st, None)
+
+
+@assumed('sync.NewCond', 'sync.NewCond(l) returns a new Cond with c.L = l')
+def i_newcond(ex, fr, ins, name, args, st, k):
+    t = ins['type']
+    et = ex.prog.under(t)[1]['elem']
+    p = ex.alloc(st, et)
+    k(st, V(t, p))
+
+
+@assumed('fmt.Sprintf', 'fmt.Sprintf returns some string')
+def i_sprintf(ex, fr, ins, name, args, st, k):
+    k(st, V('string', ex.fresh('sprintf', Str)))
